@@ -38,6 +38,7 @@ type c13Op struct {
 	Tag  string
 	Val  string
 	Ptr  string
+	Rep  int // > 1: the op this many times in a row without any observation in between
 }
 
 func c13Path(p []int) string {
@@ -50,6 +51,11 @@ func c13Path(p []int) string {
 
 // req is the op as the Lean driver reads it.
 func (o c13Op) req() string {
+	if o.Rep > 1 {
+		one := o
+		one.Rep = 0
+		return fmt.Sprintf("rep %d %s", o.Rep, one.req())
+	}
 	switch o.Kind {
 	case "an":
 		return fmt.Sprintf("an %s %s %s %s", c13Path(o.Path), hexs(o.Tag), hexs(o.Val), hexs(o.Ptr))
@@ -97,6 +103,11 @@ func (o c13Op) req() string {
 
 // String is the human-readable form used in failure reports.
 func (o c13Op) String() string {
+	if o.Rep > 1 {
+		one := o
+		one.Rep = 0
+		return fmt.Sprintf("%d x %s", o.Rep, one.String())
+	}
 	switch o.Kind {
 	case "an":
 		return fmt.Sprintf("node%v.AddNode(NewNode(%s,%q,%q))", o.Path, o.Tag, o.Val, o.Ptr)
@@ -772,6 +783,14 @@ var c13InertSubs = []string{"Query"}
 
 // apply executes one op on the real document and returns the observation in the model's format.
 func (d *c13Doc) apply(o c13Op) (obs string) {
+	if o.Rep > 1 {
+		one := o
+		one.Rep = 0
+		for i := 0; i < o.Rep; i++ {
+			obs = d.apply(one)
+		}
+		return obs
+	}
 	defer func() {
 		if r := recover(); r != nil {
 			obs = fmt.Sprintf("panic:%v", r)
@@ -1222,6 +1241,70 @@ func (r *c13Runner) do(o c13Op) {
 		// warm the caches again (two rounds, see above)
 		r.emit(c13Op{Kind: "dump"})
 		r.emit(c13Op{Kind: "dump"})
+	}
+}
+
+// silent performs exactly n family-link changes between two observations, nothing read in between:
+// first the CHIL (variant 0) or HUSB (variant 1) line of F1 is deleted, then F1.SetNodes(its own
+// children) and doc.SetNodes(its own records) — each is one `familyLinksVersion++` — n-1 times.
+func (r *c13Runner) silent(variant, n int) {
+	before := r.last
+	first := c13Op{Kind: "dn", Path: []int{3}, A: 1 - variant} // children of F1: 0 HUSB @I1@, 1 CHIL @I2@
+	ops := []c13Op{first}
+	half := (n - 1) / 2
+	ops = append(ops, c13Op{Kind: "sn", Path: []int{3}, Idx: []int{0}, Rep: half},
+		c13Op{Kind: "ds", Idx: []int{0, 1, 2, 3}, Rep: n - 1 - half})
+	for _, o := range ops {
+		if o.Rep == 1 {
+			o.Rep = 0
+		}
+		if o.Rep == 0 && o.Kind != "dn" && n-1 == 0 {
+			continue
+		}
+		obs := r.emit(o)
+		r.steps = append(r.steps, c13Step{Op: o.String(), Obs: obs})
+	}
+	after := r.emit(c13Op{Kind: "dump"})
+	text := r.d.doc.String()
+	fresh, freshExtras, err := c13Fresh(text)
+	r.emit(c13Op{Kind: "foreign", Sub: "Decode"})
+	if err != nil {
+		return
+	}
+	if fresh != after {
+		i, x, y := c13FirstDiff(after, fresh)
+		label := r.label(i)
+		r.fail(c13StaleKey(label), fmt.Sprintf("a view differs from a fresh decode after %d unobserved changes", n), label+" = "+x, "fresh decode: "+y)
+	} else if live := c13UIDs(r.d.doc); live != freshExtras {
+		r.fail("", fmt.Sprintf("a view differs from a fresh decode after %d unobserved changes", n), live, freshExtras)
+	}
+	if after == before {
+		r.c.Count("silent-history-without-visible-change") // would make the stream vacuous
+	}
+}
+
+// c13SilentGoOnly: the same with n too large for a request line; implementation against a fresh decode.
+func c13SilentGoOnly(c *Ctx, n int) {
+	doc, err := gedcom.NewDocumentFromString(c13SmallDoc)
+	if err != nil {
+		return
+	}
+	c13Dump(doc)
+	c13Dump(doc)
+	f := doc.Families()[0]
+	f.DeleteNode(f.Nodes()[1])
+	for i := 1; i < n; i++ {
+		f.SetNodes(f.Nodes())
+	}
+	after := c13Dump(doc)
+	c13MaxLivingAge = gedcom.DefaultMaxLivingAge
+	fresh, _, err := c13Fresh(doc.String())
+	c.Eval()
+	c.Count("stream=long-silent-history(go-only)")
+	if err == nil && fresh != after {
+		_, x, y := c13FirstDiff(after, fresh)
+		c.Oracle("", fmt.Sprintf("a view differs from a fresh decode after %d unobserved changes", n),
+			c13Failure{Document: c13SmallDoc, History: []c13Step{{Op: "F1.DeleteNode(CHIL)"}, {Op: fmt.Sprintf("%d x F1.SetNodes(F1.Nodes())", n-1)}}}, x, y)
 	}
 }
 
@@ -2125,6 +2208,25 @@ func init() {
 				r.finish()
 				c.Count("boundary=" + shape)
 			}
+		}
+
+		// 000. long silent histories: warm every view, then N link changes with NO observation in between
+		// (a counter or stamp that wraps at 2^8 / 2^16 accepts a stale view again after exactly that many
+		// changes), the first of which takes I2 out of the family; then observe
+		silent := []int{255, 256, 257, 65535, 65536, 65537, 131072}
+		for _, n := range silent {
+			for variant := 0; variant < 2; variant++ {
+				r, err := c13NewRunner(c, c13SmallDoc)
+				if err != nil {
+					panic(err)
+				}
+				r.silent(variant, n)
+				r.finish()
+				c.Count("stream=long-silent-history")
+			}
+		}
+		if !c.Quick() { // 2^24 changes, implementation against a fresh decode only (no model line)
+			c13SilentGoOnly(c, 1<<24)
 		}
 
 		// 0. directed histories
